@@ -581,7 +581,7 @@ func refcountCase(c *mon.Case, prop string, idx int) {
 		nCons = 2 + r.IntN(4)
 	}
 	consumers := make([]*rfConsumer, nCons)
-	kinds := []string{"wait", "resolve", "rwr", "access", "access"}
+	kinds := []string{"wait", "resolve", "rwr", "access", "access", "cwait"}
 	for i := range consumers {
 		cs := &rfConsumer{id: i, kind: kinds[r.IntN(len(kinds))], cbMode: r.IntN(3)}
 		cs.ctx, cs.cancel = context.WithCancel(context.Background())
@@ -612,6 +612,9 @@ func refcountCase(c *mon.Case, prop string, idx int) {
 				cs.val, rel, cs.err = w.rc.Resolve(cs.ctx)
 			case "rwr":
 				cs.val, rel, cs.err = w.rc.ResolveWithReleased(cs.ctx, func() { cs.relCbCount.Add(1) })
+			case "cwait":
+				// no reference of its own: waits on the target containers
+				cs.val, cs.err = refcount.WaitRefCountContainer(cs.ctx, w.target, w.targetErr)
 			default:
 				cs.err = w.rc.Access(cs.ctx, func(ctx context.Context, v *rfVal) error {
 					inv := &rfInv{val: v, ctx: ctx}
@@ -758,7 +761,7 @@ func refcountCase(c *mon.Case, prop string, idx int) {
 	}
 	blockedConsumers := 0
 	for _, cs := range consumers {
-		if !cs.returned.Load() {
+		if !cs.returned.Load() && cs.kind != "cwait" {
 			blockedConsumers++ // Wait/Resolve callers blocked inside hold an internal reference too
 		}
 	}
@@ -829,6 +832,9 @@ func refcountCase(c *mon.Case, prop string, idx int) {
 		g := gens[len(gens)-1]
 		if g.Ret() != 0 && g.relCount.Load() == 0 && g.invalid.Load() == 0 {
 			for _, cs := range consumers {
+				if cs.kind == "cwait" && w.target.GetValue() == nil && w.targetErr.GetValue() == nil {
+					continue // holds no reference: the result may have come and gone; the containers are empty now
+				}
 				if cs.kind != "access" && !cs.returned.Load() && cs.cancelStamp.Load() == 0 {
 					if mon.QuiesceConfirmed(50*time.Millisecond, 5*time.Second) && !cs.returned.Load() {
 						c.Violate("consumer", "refcount-consumer-blocked-with-result", "%s of consumer %d is still blocked at quiescence although the newest resolver call g%d returned (val %s, err %v) and its result is current", cs.kind, cs.id, g.g, valID(g.Val()), g.Err())
@@ -968,7 +974,8 @@ func judgeAccess(c *mon.Case, w *rfWorld, cs *rfConsumer, cancelled bool) {
 	invs := append([]*rfInv(nil), cs.invs...)
 	cs.invMu.Unlock()
 	gens := w.genList()
-	// invocation values must be delivered values not already released before Access was called
+	// invocation values must be delivered values not already released before Access was called, in resolution order
+	var lastGen *rfGen
 	for _, inv := range invs {
 		if w.sameValue {
 			break
@@ -982,6 +989,11 @@ func judgeAccess(c *mon.Case, w *rfWorld, cs *rfConsumer, cancelled bool) {
 			c.Violate("access", "refcount-access-stale-value", "Access (called at %d) invoked its callback with g%d which had been released at %d", cs.call, g.g, rs)
 			return
 		}
+		if lastGen != nil && g.g < lastGen.g {
+			c.Violate("access", "refcount-access-value-went-back", "Access of consumer %d invoked its callback with g%d after it had already been invoked with the newer g%d", cs.id, g.g, lastGen.g)
+			return
+		}
+		lastGen = g
 	}
 	releasedWithin := func(inv *rfInv) *rfGen {
 		for _, g := range gens {
